@@ -41,7 +41,7 @@ Value& CHRExpression::value(Context & ctx) const
     break;
   case Type::NUMERIC:
     if (!val.isNull())
-      v = Value(new Literal(1, (char)(*val.numeric())));
+      v = Value(new Literal(1, (char)Value::toInteger(*val.numeric())));
     break;
   default:
     throw RuntimeError(EXC_RT_FUNC_ARG_TYPE_S, KEYWORDS[oper]);
